@@ -189,6 +189,8 @@ class Ctx:
             self.checker_cmds.append(cmd)
             if rc == 0:
                 self.discharged += n
+                if os.path.dirname(os.path.abspath(path)) == os.path.join(COQ, "props"):
+                    self.props_compiled = getattr(self, "props_compiled", []) + [path]
                 for blk in parse_assumptions(out):
                     self.assumptions_printed.append(f"{os.path.basename(path)}: {blk}")
             else:
@@ -196,6 +198,24 @@ class Ctx:
                 self.broken("proof:" + os.path.basename(path), (err or out)[-2500:])
                 self.log(f"coqc FAILED {path} ({dt:.1f}s)")
         return ok_all
+
+    def coqchk(self, timeout=1500):
+        """thorough tier: re-check the compiled property files (and everything they depend on) with Coq's independent
+        checker and record the axioms it reports"""
+        mods = [os.path.splitext(os.path.basename(f))[0] for f in getattr(self, "props_compiled", [])]
+        if not mods:
+            return
+        cmd = ["timeout", str(timeout), "coqchk", "-silent", "-o", "-Q", THEORIES, "SF",
+               "-Q", os.path.join(self.build, "gen"), "Gen", "-R", os.path.join(COQ, "props"), "", *mods]
+        p = subprocess.run(cmd, stdout=subprocess.PIPE, stderr=subprocess.PIPE, text=True, cwd=self.build)
+        out = (p.stdout + p.stderr)
+        m = re.search(r"\* Axioms:(.*?)\n\s*\n\* Constants", out, re.S)
+        axioms = re.sub(r"\s+", " ", m.group(1)).strip() if m else "?"
+        self.checker_cmds.append(" ".join(cmd))
+        self.trusted.append(f"coqchk -o on {mods}: exit {p.returncode}; Axioms: {axioms}")
+        self.coverage["coqchk"] = {"modules": mods, "exit": p.returncode, "axioms": axioms}
+        if p.returncode != 0:
+            self.broken("coqchk", out[-2000:])
 
     # -- model evaluation on cases -----------------------------------------------------------
     def cases(self, tag: str, header: str, items: list[str], per_file: int = 250,
